@@ -465,3 +465,66 @@ func clientCallNoWait(s *cliSys, form int) {
 	vs.GoNamed("probe-caller", func() { clientCall(s.c, form) })
 	vs.Quiesce()
 }
+
+// a caller that has waited exactly DialTimeout is released by a target coming up in the very
+// detector period in which its timer expires; routing is then paused (Fallback) and another caller has
+// to wait: it waits (it does not fail at once with a time-out left over from the first wait).
+func c18SecondWait(x *X) {
+	s := newCliSys(x, rpc.RoundRobinScheduling, "a", "b")
+	forms := pickForms(x, 2)
+	w1 := spawnWaiters(s, forms[:1])
+	s.tick(4)
+	s.rt.up["a"] = true
+	s.tick(1) // t = 500 ms = DialTimeout: the timer and the wake-up fall into the same instant
+	s.tick(1)
+	out := fmt.Sprintf("first=%v/%v@%v", w1[0].done, w1[0].err, w1[0].doneAt)
+	// routing is paused (Fallback): the next caller has to wait again
+	s.c.Fallback(2 * time.Second)
+	start := vt.Elapsed()
+	w2 := spawnWaiters(s, forms[1:])
+	vs.Quiesce()
+	for k := 0; k < 7; k++ {
+		w := w2[0]
+		if w.done && w.err == rpc.ErrTimeout && w.doneAt-start < s.c.DialTimeout {
+			x.Fail("C18/timeout-too-early/second-wait", "a %s caller that had to wait (no live target) failed with ErrTimeout after %v, DialTimeout is %v; an earlier %s caller had been released at %v by a target coming up", cfNames[w.form], w.doneAt-start, s.c.DialTimeout, cfNames[w1[0].form], w1[0].doneAt)
+			break
+		}
+		s.tick(1)
+	}
+	if w := w2[0]; !w.done {
+		x.Fail("C18/waits-longer-than-dialtimeout/second-wait", "a %s caller is still waiting %v after it started, DialTimeout is %v", cfNames[w.form], vt.Elapsed()-start, s.c.DialTimeout)
+	}
+	x.Outcome("%s second=%v/%v@%v", out, w2[0].done, w2[0].err, w2[0].doneAt-start)
+	s.close()
+}
+
+func init() {
+	register(&Scenario{Prop: "C18", Name: "c18/second-wait", Quick: []Bound{{1, 0}, {2, 0}}, Thorough: []Bound{{3, 0}}, Body: c18SecondWait, MaxSteps: 100000, BudgetQ: 20})
+}
+
+// callers wait (no target live); a target comes up and, in the same detector period, the
+// application re-supplies the target list (Update with the same addresses: what a discovery loop
+// does): the callers are released - by this probe round or the next - and succeed; none of them
+// fails with ErrDial on the way.
+func c18WakeVsUpdate(x *X) {
+	s := newCliSys(x, rpc.Scheduling(x.Choose(3)), "a", "b")
+	ws := spawnWaiters(s, pickForms(x, 2))
+	pre := x.Choose(2)
+	s.tick(pre)
+	vs.GoNamed("health", func() { s.rt.up["b"] = true })
+	vs.GoNamed("updater", func() { s.c.Update("b", "a") })
+	s.tick(3)
+	for _, w := range ws {
+		if !w.done {
+			x.Fail("C18/waiter-not-released/update", "a %s caller is still waiting three detector ticks after target b became reachable (the target list was re-supplied in the same period)", cfNames[w.form])
+		} else if w.err != nil {
+			x.Fail("C18/waiter-failed-after-wake/update", "a %s caller failed with %v at %v although target b is reachable (the target list was re-supplied by Update while it was being released)", cfNames[w.form], w.err, w.doneAt)
+		}
+	}
+	x.Outcome("pre=%d %v/%v %v/%v", pre, ws[0].done, ws[0].err, ws[1].done, ws[1].err)
+	s.close()
+}
+
+func init() {
+	register(&Scenario{Prop: "C18", Name: "c18/wake-vs-update", Quick: []Bound{{1, 0}, {2, 0}}, Thorough: []Bound{{3, 0}}, Body: c18WakeVsUpdate, MaxSteps: 100000, BudgetQ: 20})
+}
